@@ -153,9 +153,52 @@ def run(prog, tier, res):
     else:
         res.violate(R4, ts, "accessor", "MainEvent::timestamp() does not return the trigger_timestamp field", prog.body(ts).where())
     res.functions.add(ts)
+    calibration_tables(prog, res)
     res.sample({"bank_loop_paths": len(loops_g.get(spec["bank_loop_key"]) or [])})
     res.sample({"wire_store": got["stores"][0] if got["stores"] else None})
     res.undecided = ["numerical equality of stored samples (follows from the expression shape and IEEE arithmetic)", "contents of the embedded calibration files"]
+
+
+CAL = "alpha_g_physics::calibration::"
+INIT = " as std::ops::Deref>::deref::__static_ref_initialize"
+DEREF = " as std::ops::Deref>::deref"
+
+
+def calibration_tables(prog, res):
+    """C10.R5: a calibration table (lazy static under physics::calibration) is built from its own embedded file only: the
+    code reachable from its initialiser inside the calibration modules never dereferences another lazy table, so an
+    element that the file of run N leaves out is absent from table N (`try_*` then answers with an error) and can never
+    be served from the table of another run."""
+    R5 = res.rule("C10.R5", "calibration tables: the initialiser of each lazy table reads no other lazy table (a missing element stays missing, no stale fallback)", 7)
+    inits = sorted(p for p in prog.bodies if p.startswith("<" + CAL) and p.endswith(INIT))
+    for ip in inits:
+        own = ip[1:-len(INIT)]
+        seen, todo, reads = set(), [ip], []
+        while todo:
+            q = todo.pop()
+            if q in seen:
+                continue
+            seen.add(q)
+            b = prog.bodies.get(q)
+            if b is None:
+                continue
+            for c in sorted(prog.callees(b)) + [x.path for x in prog.closures_of(q)]:
+                if c.startswith("<") and c.endswith(DEREF) and "__static_ref_initialize" not in c:
+                    other = c[1:-len(DEREF)]
+                    if other != own and (other + INIT) in ("%s" % k[1:] for k in prog.bodies if k.endswith(INIT)):
+                        reads.append((q, other))
+                    continue
+                if c.startswith(CAL) or c.startswith("<" + CAL):
+                    todo.append(c)
+        res.functions.add(ip)
+        res.oblige(not reads, "table")
+        if reads:
+            q, other = reads[0]
+            res.violate(R5, own, "reads:" + other.split("calibration::")[-1],
+                        "the initialiser of the calibration table %s reads the table %s (through %s): an element missing from its own file is "
+                        "served from another run's table instead of being reported as unavailable" % (own, other, q), prog.bodies[ip].where())
+        else:
+            res.hit(R5)
 
 
 def zip_longest(a, b):
